@@ -220,6 +220,44 @@ def _field_arrays(out):
 
 
 H4_RTOL = 1e-9
+SEDOV_RES_TOL = 5e-3     # of the field's scale, for points farther than 2h from every reported jump (DESIGN.md §3.2 H4)
+
+
+def _jump_locations(out):
+    import re
+    return [float(x) for x in re.findall(r"float64\(([-+0-9.eE]+|nan|inf)\)", out[3])]
+
+
+def _sedov_resolution(pa, pb, out_a, out_b, fa, fb):
+    """Comparator for two Sedov requests with different max(r): returns f(field, r, va, vb) -> bool, or None."""
+    np = world.np
+    ma, mb = float(np.nanmax(pa)), float(np.nanmax(pb))
+    if not (np.isfinite(ma) and np.isfinite(mb)) or ma <= 0 or mb <= 0:
+        return None
+    h = max(ma, mb) / 3000.0
+    jumps = [j for j in _jump_locations(out_a) + _jump_locations(out_b) if j == j]
+    if not jumps:
+        return None
+    rshock = max(jumps)
+    scale = {}
+    for n in fa:
+        vals = [np.abs(x[np.isfinite(x)]) for x in (fa.get(n), fb.get(n)) if x is not None]
+        vals = [v.max() for v in vals if v.size]
+        scale[n] = max(vals) if vals else 0.0
+
+    def ok(field, r, va, vb):
+        if field == "position":
+            return va == vb
+        if any(abs(r - j) <= 2.0 * h for j in jumps) or r != r:
+            return True
+        if field in ("specific_internal_energy", "sound_speed") and r < 0.3 * rshock:
+            return True
+        if va != va or vb != vb:
+            return (va != va) == (vb != vb) or r < 0.3 * rshock
+        if not (np.isfinite(va) and np.isfinite(vb)):
+            return va == vb
+        return abs(va - vb) <= SEDOV_RES_TOL * max(scale.get(field, 0.0), 1e-300)
+    return ok
 
 
 def _close(a, b):
@@ -260,8 +298,15 @@ def judge_batch(spec, hist, faulted, tainted):
             if gran == "mesh":
                 stats["h4_skipped"] += 1
                 continue
+            sedov_res = None
             if a != b:
-                if gran in ("sedov", "ep_piston") and pa.ndim == 1 and float(pa.max()) != float(pb.max()):
+                if gran == "sedov" and pa.ndim == 1 and float(np.nanmax(pa)) != float(np.nanmax(pb)):
+                    # different max(r) -> different internal grids: the documented resolution applies
+                    sedov_res = _sedov_resolution(pa, pb, hist["log"][ia]["out"], hist["log"][ib]["out"], fa, fb)
+                    if sedov_res is None:
+                        stats["h4_skipped"] += 1
+                        continue
+                if gran == "ep_piston" and pa.ndim == 1 and float(pa.max()) != float(pb.max()):
                     stats["h4_skipped"] += 1
                     continue
                 if gran == "mader" and not (len(pa) == len(pb) and pa[0] == pb[0] and pa[-1] == pb[-1]):
@@ -283,6 +328,12 @@ def judge_batch(spec, hist, faulted, tainted):
                         if n not in fb or fa[n] is None or fb[n] is None:
                             continue
                         va, vb = fa[n][ja], fb[n][jb]
+                        if sedov_res is not None:
+                            stats["h4_sedov_resolution_points"] = stats.get("h4_sedov_resolution_points", 0) + 1
+                            if not sedov_res(n, float(pa[ja]), float(va), float(vb)):
+                                bad = (n, ja, jb, float(va), float(vb))
+                                break
+                            continue
                         if not _close(float(va), float(vb)):
                             bad = (n, ja, jb, float(va), float(vb))
                             break
